@@ -1114,7 +1114,18 @@ func (self *TransparencyTextServerProtocol) RunCommand() error {
 }
 
 func (self *TransparencyTextServerProtocol) ProcessParse(buf []byte) error {
-	return self.serverProtocol.ProcessParse(buf)
+	if self.slock.state == STATE_LEADER {
+		return self.serverProtocol.ProcessParse(buf)
+	}
+	self.serverProtocol.parser.CopyToReadBuf(buf)
+	err := self.serverProtocol.parser.ParseRequest()
+	if err != nil {
+		return err
+	}
+	if self.serverProtocol.parser.IsParseFinish() {
+		return self.RunCommand()
+	}
+	return nil
 }
 
 func (self *TransparencyTextServerProtocol) ProcessBuild(command protocol.ICommand) error {
